@@ -67,6 +67,14 @@ var verifDir = func() string {
 	return "/verif"
 }()
 
+// outDir is where evidence/ and replays/ are written (VERIF_EVIDENCE_DIR redirects both, used for mutant runs only).
+func outDir(sub string) string {
+	if d := os.Getenv("VERIF_EVIDENCE_DIR"); d != "" {
+		return filepath.Join(d, sub)
+	}
+	return filepath.Join(verifDir, sub)
+}
+
 // Dir returns the verif root.
 func Dir() string { return verifDir }
 
@@ -342,7 +350,7 @@ func (c *Ctx) Finish() int {
 	}
 	kn := loadKnown()
 	exit := 0
-	os.MkdirAll(filepath.Join(verifDir, "replays"), 0o755)
+	os.MkdirAll(outDir("replays"), 0o755)
 	nKnown := 0
 	for _, k := range c.violOrder {
 		v := c.viol[k]
@@ -358,7 +366,7 @@ func (c *Ctx) Finish() int {
 			continue
 		}
 		sum := sha256.Sum256([]byte(v.Key))
-		p := filepath.Join(verifDir, "replays", c.Prop+"-"+hex.EncodeToString(sum[:6])+".json")
+		p := filepath.Join(outDir("replays"), c.Prop+"-"+hex.EncodeToString(sum[:6])+".json")
 		js, _ := json.MarshalIndent(map[string]any{"property": c.Prop, "key": v.Key, "desc": v.Desc, "case": v.Case}, "", " ")
 		os.WriteFile(p, js, 0o644)
 		fmt.Printf("VIOLATION property=%s replay=%s\n  key=%s\n  %s\n", c.Prop, p, v.Key, indent(v.Desc))
@@ -416,8 +424,8 @@ func (c *Ctx) Finish() int {
 		e["assumptions"] = []string{}
 	}
 	js, _ := json.MarshalIndent(e, "", " ")
-	os.MkdirAll(filepath.Join(verifDir, "evidence"), 0o755)
-	if err := os.WriteFile(filepath.Join(verifDir, "evidence", c.Prop+".json"), append(js, '\n'), 0o644); err != nil {
+	os.MkdirAll(outDir("evidence"), 0o755)
+	if err := os.WriteFile(filepath.Join(outDir("evidence"), c.Prop+".json"), append(js, '\n'), 0o644); err != nil {
 		fmt.Fprintln(os.Stderr, "evidence:", err)
 		return 2
 	}
